@@ -40,7 +40,7 @@ _real_datetime_str = wpull.util.datetime_str
 P = 'C06'
 BUDGETS = {'C06': (45, 900, 10)}
 LEVELS = {'C06': 'fault_enumeration'}
-PROBES = {'C06': ['numbered_files', 'first_record_of_file', 'compressed', 'uncompressed', 'multi_write_append', 'error_at_journal', 'error_at_archive_open',
+PROBES = {'C06': ['numbered_files', 'failed_rollover_before_the_append', 'first_record_of_file', 'compressed', 'uncompressed', 'multi_write_append', 'error_at_journal', 'error_at_archive_open',
                   'error_at_archive_write', 'error_at_archive_close', 'error_at_unlink', 'torn_error', 'short_write',
                   'kill_points', 'kill_torn_points', 'kill_with_journal', 'restart_refused', 'real_kill_crosscheck', 'archive_name_with_glob_characters', 'second_run_close']}
 INFO = {'C06': {
@@ -220,6 +220,26 @@ def run(tape, prop, tier):
             recorder.write_record(rec)
         arch_name = (stem + '-00000' if max_size else stem) + ('.warc.gz' if compress else '.warc')
         arch = os.path.join(sandbox, arch_name)
+        if max_size and nprev >= 1 and tape.chance(1, 3, 'failed_rollover'):
+            # history: the size limit was reached once, the start of the next numbered file failed with an I/O error at a drawn
+            # operation, and recording went on in the current file. Everything below (journal, roll-back, refusal) must be about
+            # THIS file; the stub the failed start may have left is part of the state before the append.
+            real_params = recorder._params
+            recorder._params = real_params._replace(max_size=1)
+            f = simfs.SimFS(sandbox)
+            f.plan = {tape.draw(4, 'failed_rollover.op'): ('error', errno.EIO)}
+            with f:
+                try:
+                    recorder.flush_session()
+                except OSError:
+                    r.probes['failed_rollover_before_the_append'] += 1
+                _collect()
+            recorder._params = real_params
+            if os.path.basename(recorder._warc_filename) != arch_name:
+                # the drawn operation did not fail the start (or the recorder moved on): the next file is the one under test
+                arch_name = os.path.basename(recorder._warc_filename)
+                arch = os.path.join(sandbox, arch_name)
+                nprev = 1
         if nprev == 0:
             # the state in which the recorder writes the first record of a file (fresh archive, next --warc-max-size
             # file, -meta file): the file exists and is empty
